@@ -20,6 +20,9 @@ RULE = (
     "label parse); term_slices/get_slice/get_term_indices agree for lookups by Term object and by printed form; "
     "column lookups by name; variable_indices[v] == union of the positions of the terms the generator knows use v; "
     "subset(S) (Term objects and strings, default and 'none' ordering) regenerates exactly the parent's columns. "
+    "Campaign data-dependent-column-order: a caller transform returning one indicator column per value in order of first "
+    "appearance, spec re-used on a row permutation of the training data: names as recorded, every position holds the "
+    "values its name denotes (non-trivial = the first-appearance order changed). "
     "Non-trivial = >=2 terms with >=1 interaction or multi-column factor; distinct by (formula, frame, options)."
 )
 ASSUMPTIONS = [
@@ -246,8 +249,83 @@ def gen(max_rows=10):
     )
 
 
-BUDGET_S = {"quick": 70, "thorough": 1500}
+# ---- a multi-column factor whose column order depends on the data -------------------------------------------------
+REORDER_FORMULAS = ["oh(A)", "oh(A) + x", "x + oh(A):x", "oh(A) + oh(A):x", "x:oh(A) + oh(A)", "oh(A):oh(B)", "oh(B) + x:oh(A)"]
+
+
+def check_reorder(case) -> Outcome:
+    """The caller's transform `oh` returns one indicator column per value *in order of first appearance*; a spec
+    re-used on other data (same values, other row order) must still describe the columns it hands back: names as
+    recorded, and under every recorded name / position the values that name denotes."""
+    import pandas as pd
+    from ..libio import model_matrix
+
+    out = Outcome()
+    n = len(case["A"])
+    df1 = pd.DataFrame({"A": case["A"], "B": case["B"], "x": [1.0 + 0.5 * i for i in range(n)]})
+    order = sorted(range(n), key=lambda i: case["perm"][i])  # a permutation of the rows
+    df2 = df1.iloc[order].reset_index(drop=True)
+    if set(df2["A"]) != set(df1["A"]) or set(df2["B"]) != set(df1["B"]):
+        out.rejected = True  # other values -> other columns: the library rightly refuses (not this relation)
+        return out
+    ctx = {"oh": lambda v: {str(k): (np.asarray(v) == k).astype(float) for k in pd.unique(v)}}
+    s = ("" if case["intercept"] else "0 + ") + REORDER_FORMULAS[case["formula"] % len(REORDER_FORMULAS)]
+    output = case["output"]
+    feat = dict(output=output, reorder=True)
+    mm1 = model_matrix(s, df1, context=ctx, output=output, ensure_full_rank=case["efr"])
+    spec = mm1.model_spec
+    names = list(spec.column_names)
+    first = {c: list(pd.unique(df[c])) for c, df in (("A1", df1[["A"]].rename(columns={"A": "A1"})), ("A2", df2[["A"]].rename(columns={"A": "A2"})))}
+    out.nontrivial = first["A1"] != first["A2"]
+    out.label("out:" + output, "order-changed" if out.nontrivial else "order-kept")
+    mm2 = spec.get_model_matrix(df2, context=ctx)
+    if list(mm2.model_spec.column_names) != names:
+        out.fail("reused-spec-column-names", f"{s!r}: {list(mm2.model_spec.column_names)} vs {names}", **feat)
+        return out
+    if output == "pandas" and list(mm2.columns) != names:
+        out.fail("column-names-vs-labels", f"{s!r} re-used on rows {order}: labels {list(mm2.columns)} vs recorded names {names}", **feat)
+        return out
+    M = dense(mm2).reshape(len(df2), -1)
+    if M.shape[1] != len(names):
+        out.fail("column-names-length", f"{s!r} re-used: {M.shape[1]} columns for {len(names)} names", **feat)
+        return out
+
+    def piece(p):
+        if p == "Intercept":
+            return np.ones(len(df2))
+        if p == "x":
+            return df2["x"].to_numpy()
+        col, lvl = p[3], p[6:-1]  # 'oh(A)[a]'
+        return (df2[col].to_numpy() == lvl).astype(float)
+
+    for j, name in enumerate(names):
+        exp = np.prod([piece(p) for p in name.split(":")], axis=0)
+        if not np.allclose(M[:, j], exp):
+            out.fail("position-holds-named-column", f"{s!r} trained on A={case['A']}, re-used on rows {order} ({output}): position {j} named {name!r} holds {M[:, j].tolist()}, the name denotes {exp.tolist()}", **feat)
+            break
+    for t, sl in spec.term_slices.items():
+        want = {f.expr for f in t.factors}
+        for name in names[sl]:
+            got = {base_factor(p) for p in name.split(":")} - {"Intercept"}
+            if not got <= want:
+                out.fail("term-positions-vs-labels", f"{s!r}: term {t} slice {sl} contains {name!r}", **feat)
+    return out
+
+
+def gen_reorder():
+    lv = st.lists(st.sampled_from(["a", "b", "c", "d"]), min_size=3, max_size=8)
+    return st.builds(
+        lambda A, B, perm, f, i, o, e: {"A": A, "B": (B * 8)[: len(A)], "perm": list(perm), "formula": f, "intercept": i, "output": o, "efr": e},
+        lv, st.lists(st.sampled_from(["u", "v", "w"]), min_size=2, max_size=8), st.permutations(list(range(8))),
+        st.integers(0, 20), st.booleans(), st.sampled_from(["pandas", "numpy", "sparse"]), st.booleans(),
+    )
+
+
+BUDGET_S = {"quick": 90, "thorough": 1500}
 
 
 def campaigns(tier, shard=0, nshards=1):
-    return [Campaign("metadata", gen(10 if tier == "quick" else 20), check_case, 900 if tier == "quick" else 8000)]
+    return [
+        Campaign("metadata", gen(10 if tier == "quick" else 20), check_case, 900 if tier == "quick" else 8000),
+        Campaign("data-dependent-column-order", gen_reorder(), check_reorder, 400 if tier == "quick" else 4000),
+    ]
